@@ -902,12 +902,47 @@ func runGenericProperty(t *testing.T, prop string, rule string, extra func(rep *
 		}
 
 		var rf struct {
-			Case  gScenario `json:"case"`
-			Gated *qgCase   `json:"gated"`
+			Case          gScenario `json:"case"`
+			Gated         *qgCase   `json:"gated"`
+			DestroyCtl    *dgCase   `json:"destroyctl"`
+			TransformList *tlCase   `json:"transformlist"`
 		}
 
 		if err := json.Unmarshal(b, &rf); err != nil {
 			t.Fatal(err)
+		}
+
+		if rf.DestroyCtl != nil || rf.TransformList != nil {
+			var (
+				f            *coqFile
+				coq, problem string
+				body         map[string]any
+			)
+
+			if rf.DestroyCtl != nil {
+				f = newCoqFile(prop+"_destroyctl_cases", []string{"Store", "Helpers", "DepDB", "Access", "GenCtl", "GenCtlCheck", "Destroy", "DestroyCheck"}, "dcase", "destroy_mismatches")
+				coq, _, problem = runGatedDestroy(t, *rf.DestroyCtl)
+				body = map[string]any{"destroyctl": rf.DestroyCtl}
+			} else {
+				f = newCoqFile(prop+"_transformlist_cases", []string{"Store", "Helpers", "DepDB", "Access", "GenCtl", "GenCtlCheck", "Transform", "TransformList", "TransformListCheck"}, "lcase", "transform_list_mismatches")
+				coq, _, problem = runGatedTransformList(t, *rf.TransformList)
+				body = map[string]any{"transformlist": rf.TransformList}
+			}
+
+			if problem != "" {
+				rep.violateKey(0, "gated:replay", problem, body)
+			}
+
+			if coq != "" {
+				f.add(coq)
+				rep.CoqFiles = append(rep.CoqFiles, f.finish(t, dir))
+				rep.CaseFiles = append(rep.CaseFiles, writeJSONL(t, dir, f.name+".jsonl", []any{body}))
+			}
+
+			rep.count("replay", true)
+			rep.write(t, dir)
+
+			return
 		}
 
 		if rf.Gated != nil {
@@ -1020,11 +1055,12 @@ func TestC07(t *testing.T) {
 	runGenericProperty(t, "C07", "same runs as C06 plus cleanup controllers (RemoveOutputs, HasNoOutputs, Combine of two HasNoOutputs handlers with dependents vanishing in either order); a recording proxy around the CoreState yields the totally ordered log of committed writes; the monitor checks on every prefix: an owned output implies its input exists and carries the controller's finalizer, "+
 		"the controller removes its finalizer only when the output is gone, destroys outputs only when marked tearing down with no finalizers, and a cleanup controller releases its finalizer only when no dependent output exists; "+
 		"plus gated schedules: qtransform.QController.Reconcile is called directly on the real qruntime adapter with every runtime call held at a gate, arbitrary store operations of other parties (incl. ones the assumptions exclude) placed between any two calls, transform faults injected; "+
-		"the schedule, the kind of every runtime call, the reconcile result and the final store are replayed on GenCtl.q_step; the same for cleanup.Controller.Run with HasNoOutputs handlers (single and combined) against Cleanup.c_step, and for transform.Controller.Run with input finalizers against Transform.t_step, and for destroy.Controller.Reconcile against Destroy.d_step (Get and Destroy gated, every environment operation incl. destroy + re-create and revive in every gap; monitor: whatever the controller removes has no owner and no finalizers at that instant)", func(rep *Report, dir string) {
+		"the schedule, the kind of every runtime call, the reconcile result and the final store are replayed on GenCtl.q_step; the same for cleanup.Controller.Run with HasNoOutputs handlers (single and combined) against Cleanup.c_step, and for transform.Controller.Run with input finalizers against Transform.t_step, for transform.Controller.Run over several inputs with a many-to-one and partial mapping against the list-based machine TransformList.l_step (kind and target of every call, order of the finalizer releases; monitor: a release is issued only while no owned output exists at the id the input maps to), and for destroy.Controller.Reconcile against Destroy.d_step (Get and Destroy gated, every environment operation incl. destroy + re-create and revive in every gap; monitor: whatever the controller removes has no owner and no finalizers at that instant)", func(rep *Report, dir string) {
 		gatedQPhase(t, "C07")(rep, dir)
 		gatedCleanupPhase(t)(rep, dir)
 		gatedTransformPhase(t, "C07")(rep, dir)
 		gatedDestroyPhase(t, "C07")(rep, dir)
+		gatedTransformListPhase(t, "C07")(rep, dir)
 	})
 }
 
